@@ -350,8 +350,14 @@ def m_vec_splice(I, st, call):
         detail = None if ok else "splice range %r..%r not shown within len %r" % (a.aff, b.aff, v.len)
     I.note("call:splice", call.site, ok, detail)
     if v is not None:
-        n = I.fresh(st, "len", 0, ISIZE_MAX)
-        I.write(st, p, VecV(Aff.sym(n), None, None, I.newgen()))
+        cnt = iter_count(I, st, call.args[2]) if len(call.args) > 2 else None
+        if ok and cnt is not None:
+            # the range is replaced by the items of the iterator
+            a, b = rng.fields
+            I.write(st, p, VecV(v.len - (b.aff - a.aff) + cnt, None, None, I.newgen()))
+        else:
+            n = I.fresh(st, "len", 0, ISIZE_MAX)
+            I.write(st, p, VecV(Aff.sym(n), None, None, I.newgen()))
     return [(st, OpaqueV(call.dest_ty, (("splice_of", repr(p)),)))]
 
 
